@@ -26,12 +26,32 @@ ORDERS = ["mon_first", "mgr_first", "mon_all", "mgr_all"]
 class Tree:
     """parent[k-1] = parent of block k (0 = base tip); txs[k-1] = roles confirmed in block k."""
 
-    def __init__(self, parent, txs):
+    def __init__(self, parent, txs, dep=None, rev=False, keep_order=False):
         self.parent = [0] + list(parent)
-        self.txs = [[]] + [sorted(t) for t in txs]
+        self.dep = list(dep) if dep else [0, 1, 1, 1]     # dep[r-1] = the role whose output role r spends
+        self.rev = rev
+        self.txs = [[]] + [list(t) if keep_order else self.order(t) for t in txs]
         self.height = [0] * len(self.parent)
         for k in range(1, len(self.parent)):
             self.height[k] = self.height[self.parent[k]] + 1
+
+    def order(self, roles):
+        """block-internal order: topological, independent transactions ascending (descending if rev)"""
+        left, out = set(roles), []
+        while left:
+            ready = [r for r in left if self.dep[r - 1] not in left]
+            x = max(ready) if self.rev else min(ready)
+            out.append(x)
+            left.discard(x)
+        return out
+
+    def generations(self, roles):
+        """the roles of one block split into generations of in-block descendants"""
+        gen = {}
+        for r in self.order(roles):
+            d = self.dep[r - 1]
+            gen[r] = gen[d] + 1 if d in gen else 0
+        return [[r for r in self.order(roles) if gen[r] == g] for g in range(max(gen.values()) + 1)] if gen else []
 
     def chain(self, b):
         v = [b]
@@ -90,11 +110,15 @@ def listen_ops(rng, tree, old, target, walk, mode):
     return ops
 
 
-def split_sel(roles):
-    """parents first, children in a later call (role 1 is the parent of 2, 3, 4)"""
-    if 1 in roles and len(roles) > 1:
-        return [[1], [r for r in roles if r != 1]]
-    return [list(roles)]
+def split_sel(tree, roles, rng=None):
+    """parents first, their in-block children in a later call, grandchildren after that; or (rng) some
+    other cut of the topological order into consecutive calls"""
+    gens = tree.generations(roles)
+    if rng is not None and len(roles) > 2 and rng.random() < 0.5:
+        o = tree.order(roles)
+        k = rng.randint(1, len(o) - 1)
+        return [o[:k], o[k:]]
+    return gens
 
 
 def confirm_ops(rng, tree, old, target, reorg, fwd, drain_p=0.0):
@@ -149,7 +173,7 @@ def confirm_ops(rng, tree, old, target, reorg, fwd, drain_p=0.0):
                 ops.append({"op": "best", "b": b})
     elif fwd == "split":
         for b in path:
-            parts = split_sel(tree.txs[b]) if tree.txs[b] else []
+            parts = split_sel(tree, tree.txs[b], rng) if tree.txs[b] else []
             first = rng.random() < 0.5
             if first:
                 ops.append({"op": "best", "b": b})
@@ -167,7 +191,7 @@ def confirm_ops(rng, tree, old, target, reorg, fwd, drain_p=0.0):
                 # flush transactions first, or update the tip first
                 if rng.random() < 0.5:
                     for p in pending:
-                        for sel in (split_sel(tree.txs[p]) if rng.random() < 0.5 else [tree.txs[p]]):
+                        for sel in (split_sel(tree, tree.txs[p], rng) if rng.random() < 0.5 else [tree.txs[p]]):
                             ops.append({"op": "txs", "b": p, "sel": list(sel)})
                         if rng.random() < 0.2:
                             ops += txs_ops(p)
@@ -241,7 +265,11 @@ def mk_script(scen, tree, targets, sched, kind, hist):
 def tree_valid(tree, meta):
     """Every chain of the tree is a valid block chain for the scenario's transactions."""
     avail = {r + 1 for r, ok in enumerate(meta["roles"]) if ok}
+    if tree.dep != list(meta["dep"]):
+        return False
     for b in range(1, len(tree.parent)):
+        if tree.order(tree.txs[b]) != tree.txs[b] and Tree([], [], tree.dep, not tree.rev).order(tree.txs[b]) != tree.txs[b]:
+            return False
         ch = tree.chain(b)
         seen = {}
         for a in ch:
@@ -250,7 +278,8 @@ def tree_valid(tree, meta):
                     return False
                 seen[r] = a
         for r in tree.txs[b]:
-            if r != 1 and 1 not in seen:
+            d = meta["dep"][r - 1]
+            if d != 0 and d not in seen:
                 return False
             if tree.height[b] < meta["minh"][r - 1]:
                 return False
@@ -282,12 +311,12 @@ def random_tree(rng, meta, ard, nbmax=12):
         tips.append(prev)
     avail = [r + 1 for r, ok in enumerate(meta["roles"]) if ok]
     txs = [[] for _ in parent]
-    tree = Tree(parent, txs)
+    tree = Tree(parent, txs, meta["dep"], rev=rng.random() < 0.3)
     p = rng.choice([0.15, 0.3, 0.5])
     for b in range(1, len(parent) + 1):
         for r in avail:
             if rng.random() < (p * 2 if r == 1 else p):
-                tree.txs[b] = sorted(tree.txs[b] + [r])
+                tree.txs[b] = tree.order(tree.txs[b] + [r])
                 if not tree_valid(tree, meta):
                     tree.txs[b] = [x for x in tree.txs[b] if x != r]
     return tree, tips
@@ -352,7 +381,7 @@ def sweep_histories(meta, ard):
             return [sorted(set(x)) for x in txs]
         n = hr + ard + 1
         if n <= 12:
-            t = Tree(list(range(n)), place(n))
+            t = Tree(list(range(n)), place(n), meta["dep"])
             if tree_valid(t, meta):
                 out.append((t, list(range(1, n + 1))))
         for d in (ard - 3, ard - 2, ard - 1, ard):
@@ -366,7 +395,7 @@ def sweep_histories(meta, ard):
             for extra in (None, la + 1 if lb >= 2 else None):
                 if extra is None and r == 1 and False:
                     continue
-                t = Tree(parent, place(len(parent), extra))
+                t = Tree(parent, place(len(parent), extra), meta["dep"])
                 if not tree_valid(t, meta):
                     continue
                 out.append((t, walk))
@@ -409,13 +438,93 @@ def late_histories(ard):
     return out
 
 
+def chain_histories(meta, ard, thorough=False):
+    """Dependency chains of relevant transactions (a role, the role it spends, ... up to the root;
+    depth 2 and 3), every way of packing consecutive members into the same block or spreading them
+    (gap 0 = same block, 1 = next block, [2]), at the earliest heights the locktimes allow:
+      (a) on one chain: the object is taken from the starting state (it has never seen any member)
+          to the block of the last member in ONE transition, then block by block until the last
+          member is buried ARD + 1 deep;
+      (b) with a reorganisation: one arrangement on branch A (followed block by block, or in one
+          jump), another one on branch B which forks below the first member, B followed until buried."""
+    dep, out = meta["dep"], []
+    avail = {r + 1 for r, ok in enumerate(meta["roles"]) if ok}
+    chains = []
+    for r in sorted(avail):
+        c = [r]
+        while dep[c[0] - 1] != 0:
+            c.insert(0, dep[c[0] - 1])
+        if len(c) >= 2 and all(x in avail for x in c):
+            chains.append(c)
+    gapsets = (0, 1, 2) if thorough else (0, 1)
+
+    def arrangements(c):
+        res = [[]]
+        for _ in c[1:]:
+            res = [g + [x] for g in res for x in gapsets]
+        return res
+
+    def heights(c, gaps):
+        s = 1
+        while True:
+            hs = [s]
+            for g in gaps:
+                hs.append(hs[-1] + g)
+            if all(h >= max(1, meta["minh"][r - 1]) for h, r in zip(hs, c)):
+                return hs
+            s += 1
+
+    for c in chains:
+        arr = arrangements(c)
+        for ga in arr:
+            ha = heights(c, ga)
+            n = min(12, ha[-1] + ard + 1)
+            txs = [[] for _ in range(n)]
+            for h, r in zip(ha, c):
+                txs[h - 1].append(r)
+            t = Tree(list(range(n)), txs, dep)
+            if tree_valid(t, meta):
+                out.append((t, list(range(ha[-1], n + 1))))
+                if ha[-1] > 1:
+                    out.append((t, [ha[0]] + list(range(ha[-1], n + 1))) if ha[0] < ha[-1] else (t, [ha[-1] - 1] + list(range(ha[-1], n + 1))))
+            for gb in arr:
+                if gb == ga:
+                    continue
+                hb = heights(c, gb)
+                la = ha[-1]
+                f = min(ha[0], hb[0]) - 1                      # fork point below the first member on either branch
+                lb_top = min(12 - la, max(hb[-1], la) - f + ard)
+                if lb_top < max(hb[-1], la) - f:
+                    continue
+                parent = list(range(la)) + [f] + [la + k for k in range(1, lb_top)]
+                txs = [[] for _ in parent]
+                for h, r in zip(ha, c):
+                    txs[h - 1].append(r)
+                for h, r in zip(hb, c):
+                    txs[la + (h - f) - 1].append(r)
+                t = Tree(parent, txs, dep)
+                if not tree_valid(t, meta):
+                    continue
+                first_b = la + (max(hb[-1], la) - f)           # the block of B at which B is at least as high as A
+                rest = list(range(first_b, la + lb_top + 1))
+                out.append((t, list(range(1, la + 1)) + rest))
+                out.append((t, [la] + rest))
+    seen, res = set(), []
+    for t, tg in out:
+        k = (tuple(t.parent), tuple(tuple(x) for x in t.txs), tuple(tg))
+        if k not in seen:
+            seen.add(k)
+            res.append((t, tg))
+    return res
+
+
 def chain_key(scen, tree, tip):
     return (scen, tuple(tuple(tree.txs[b]) for b in tree.chain(tip)[1:]))
 
 
 def direct_script(scen, tree, tip):
     ch = tree.chain(tip)[1:]
-    dt = Tree(list(range(len(ch))), [tree.txs[b] for b in ch])
+    dt = Tree(list(range(len(ch))), [tree.txs[b] for b in ch], tree.dep, tree.rev, keep_order=True)
     return mk_script(scen, dt, [len(ch)], canonical_schedule(dt, [len(ch)], [False]), "direct", 0)
 
 
@@ -423,7 +532,8 @@ def direct_script(scen, tree, tip):
 
 def convert_tlc(rng, s):
     """TLC behaviour (ChainViewMC.hist) -> (tree, targets, reloads, schedule)."""
-    tree = Tree(s["parent"], s["txs"])
+    tree = Tree(s["parent"], s["txs"], s["dep"], keep_order=True)
+    tree.rev = any(tree.order(t) != t for t in tree.txs)
     targets, reloads, trans = [], [], []
     old, pending_reload, cur = 0, False, None
     for o in s["ops"]:
@@ -706,7 +816,7 @@ def run(tier, seed):
 
     # ---- 1. environment check + behaviours from TLC
     mcs, tlc_scripts = [], []
-    cfgs = ["ChainViewMC.cfg"] if not thorough else ["ChainViewMC.cfg", "ChainViewMCt1.cfg", "ChainViewMCt2.cfg"]
+    cfgs = ["ChainViewMC.cfg", "ChainViewMCc.cfg"] if not thorough else ["ChainViewMC.cfg", "ChainViewMCc.cfg", "ChainViewMCt1.cfg", "ChainViewMCt2.cfg"]
     for cfg in cfgs:
         r = vlib.tlc_mc(PID, "ChainViewMC", cfg, workers=12, timeout=3000 if thorough else 600)
         if r["violated"]:
@@ -751,6 +861,29 @@ def run(tier, seed):
             for _ in range(per_hist - 1 if not thorough else per_hist):
                 plan.add(n, tree, targets, reloads, random_schedule(rng, tree, targets, reloads), "sweep")
                 n_sweep += 1
+    # dependency chains packed into one block / spread over blocks, every delivery style systematically
+    n_chain = 0
+    for n in names:
+        if max(metas[n]["dep"]) < 2:
+            continue
+        for tree, targets in chain_histories(metas[n], ard, thorough):
+            variants = [[False] * len(targets)]
+            if thorough or rng.random() < 0.3:
+                variants.append([False] + [k == 1 for k in range(1, len(targets))])     # a restart after the first transition
+            for reloads in variants:
+                plan.add(n, tree, targets, reloads, None, "chain")
+                lst = [{"order": rng.choice(ORDERS), "trans": [
+                    {"reload": bool(reloads[i]), "claim": False,
+                     "ops": listen_ops(rng, tree, ([0] + targets)[i], t, "one", mode)} for i, t in enumerate(targets)]}
+                    for mode in LISTEN_MODES[1:]]
+                cnf = [styled_schedule(rng, tree, targets, reloads, None, rng.choice(REORG_STYLES), fwd, rng.choice(ORDERS))
+                       for fwd in ("txfirst", "bestfirst", "split", "skip_txfirst", "skip_bestfirst")]
+                scheds = lst + cnf if thorough else rng.sample(lst, 2) + rng.sample(cnf, 2)
+                for sc in scheds:
+                    plan.add(n, tree, targets, reloads, sc, "chain")
+                    n_chain += 1
+    if any(max(m["dep"]) >= 2 for m in metas.values()) and n_chain == 0:
+        raise vlib.ToolError("no dependency-chain history was generated")
     n_late = 0
     for n in names:
         if not metas[n].get("late"):
@@ -892,7 +1025,7 @@ def run(tier, seed):
                      "action_coverage": r["coverage"], "wall_s": round(r["wall_s"], 1)} for c, r in mcs],
         "histories": len(plan.hists), "schedules_other_than_canonical": nsched,
         "schedules_from_tlc": n_tlc, "schedules_threshold_sweep": n_sweep, "schedules_random": n_rand,
-        "schedules_late_preimage": n_late,
+        "schedules_late_preimage": n_late, "schedules_dependency_chains": n_chain,
         "starting_states": names, "sync_points_judged": total_syncs, "notification_calls": total_calls,
         "events_validated": total_events, "impl_panics": panics,
         "impl_panic_classes": {"%s: %s" % (k[0], k[1][:80]): v for k, v in panic_seen.items()}, "anti_reorg_delay": ard,
